@@ -6,6 +6,7 @@ import (
 	"os"
 	"sort"
 	"strings"
+	"sync"
 	"testing"
 	"time"
 
@@ -59,6 +60,14 @@ type SAct struct {
 	// transaction carry a time 1 ms after that transaction started to hold the lock (the transaction
 	// committed at least 1 ms later still): the application's write must win against them
 	BetweenHeld bool `json:"between_held,omitempty"`
+	// Queued (app): the application's transaction is started while the loop RUNS - by the goroutine that writes
+	// the LogK-th log line of this instance after the loop was released from this yield point. If Lightning
+	// Stream holds the write lock at that moment (most of its log statements sit inside its transactions) the
+	// application waits in the queue for the lock and commits as soon as it is free; the loop's goroutine is then
+	// held up for a few milliseconds at each of its following log statements, so that the commit lands at the
+	// first moment at which Lightning Stream does not hold the lock - e.g. between two of its own transactions.
+	Queued bool `json:"queued,omitempty"`
+	LogK   int  `json:"log_k,omitempty"`
 }
 
 type LoopCase struct {
@@ -106,17 +115,22 @@ var loopYieldPoints = []string{"sync.iter", "sync.before-next", "sync.before-loa
 const nMainPoints = 13
 
 type loopStats struct {
-	appAt        map[string]int
-	appBetween   bool // an application commit fell between two LS transactions (not at sync.iter / before-sleep)
-	mergeAfter   bool // a merge followed such a commit
-	excludedF9   int
-	betweenHeld  int // peer entries stamped between the start and the commit of a held application transaction
-	held         int // application transactions that held the write lock while the loop ran on
-	txnIDChecked int // entries whose header transaction id was checked after Lightning Stream (re)wrote them
-	lsEmptyApp   int
-	idleReached  bool
-	stores       int
-	fallbacks    int
+	appAt         map[string]int
+	appBetween    bool // an application commit fell between two LS transactions (not at sync.iter / before-sleep)
+	mergeAfter    bool // a merge followed such a commit
+	excludedF9    int
+	betweenHeld   int  // peer entries stamped between the start and the commit of a held application transaction
+	held          int  // application transactions that held the write lock while the loop ran on
+	queued        int  // application transactions started at a log line of the running loop
+	queuedWaited  int  // ... that had to wait for the write lock beyond that log line
+	queuedAfterLS int  // ... that committed right after a Lightning Stream transaction (before the next yield point)
+	queuedNoLine  int  // ... whose log line never came (ordinary commit at the next yield)
+	aborted       bool // case ended early (known finding reached through a queued commit)
+	txnIDChecked  int  // entries whose header transaction id was checked after Lightning Stream (re)wrote them
+	lsEmptyApp    int
+	idleReached   bool
+	stores        int
+	fallbacks     int
 }
 
 type peerSnap struct {
@@ -243,22 +257,36 @@ func runLoopCase(c LoopCase, o *vcore.Obs) (*loopStats, error) {
 		}
 	}
 	appRecorded := false // LMDB recorded at least one application transaction
-	var commitInner func(changes []SChange, startup bool, hold func()) error
+	var commitInner func(changes []SChange, startup bool, hold func(), later *[]func()) error
 	commit := func(changes []SChange, startup bool) error {
 		before := lm.LastTxnID(env.Env)
-		err := commitInner(changes, startup, nil)
+		err := commitInner(changes, startup, nil, nil)
 		if lm.LastTxnID(env.Env) != before {
 			appRecorded = true
 		}
 		return err
 	}
-	appTxnID := uint64(0)         // id of the application's most recent write transaction
-	appFloor := uint64(0)         // ... of the most recent one that certainly dirtied a page (LMDB recorded it)
-	appWrote := map[string]bool{} // dbi/key written by the application since the last transaction-id check
-	commitInner = func(changes []SChange, startup bool, hold func()) error {
+	queuedTxn, queuedDirty := uint64(0), false // the transaction of a queued application commit (set by its goroutine)
+	appTxnID := uint64(0)                      // id of the application's most recent write transaction
+	appFloor := uint64(0)                      // ... of the most recent one that certainly dirtied a page (LMDB recorded it)
+	appWrote := map[string]bool{}              // dbi/key written by the application since the last transaction-id check
+	commitInner = func(changes []SChange, startup bool, hold func(), later *[]func()) error {
 		dirty := false
+		// model updates: at once, or - for a transaction that commits while the loop runs - collected and applied by
+		// the main goroutine once it knows where the commit fell
+		apply := func(f func()) {
+			if later != nil {
+				*later = append(*later, f)
+			} else {
+				f()
+			}
+		}
+		myTxn := uint64(0)
 		err := env.Update(func(txn *lmdb.Txn) error {
-			appTxnID = uint64(txn.ID())
+			myTxn = uint64(txn.ID())
+			if later == nil {
+				appTxnID = myTxn
+			}
 			if hold != nil {
 				defer hold()
 			}
@@ -269,11 +297,13 @@ func runLoopCase(c LoopCase, o *vcore.Obs) (*loopStats, error) {
 				if err != nil {
 					return err
 				}
-				if local[dbiName] == nil {
-					local[dbiName] = map[string]Ver{}
-				}
+				apply(func() {
+					if local[dbiName] == nil {
+						local[dbiName] = map[string]Ver{}
+					}
+					appWrote[dbiName+"/"+string(key)] = true
+				})
 				del := ch.Op == "del"
-				appWrote[dbiName+"/"+string(key)] = true
 				if c.Native {
 					ts := ch.TS
 					if old, err := txn.Get(dbi, key); err == nil {
@@ -292,7 +322,7 @@ func runLoopCase(c LoopCase, o *vcore.Obs) (*loopStats, error) {
 						return err
 					}
 					dirty = true
-					local[dbiName][string(key)] = Ver{TS: ts, Del: del, Val: val}
+					apply(func() { local[dbiName][string(key)] = Ver{TS: ts, Del: del, Val: val} })
 				} else {
 					if del {
 						err := txn.Del(dbi, key, nil)
@@ -302,20 +332,27 @@ func runLoopCase(c LoopCase, o *vcore.Obs) (*loopStats, error) {
 						if err == nil {
 							dirty = true
 						}
-						mir.AppCreate(dbiName, "plain")
-						mir.AppDel(dbiName, key)
+						apply(func() {
+							mir.AppCreate(dbiName, "plain")
+							mir.AppDel(dbiName, key)
+						})
 					} else {
 						if err := txn.Put(dbi, key, ch.Val, 0); err != nil {
 							return err
 						}
 						dirty = true
-						mir.AppPut(dbiName, "plain", key, ch.Val)
+						val := ch.Val
+						apply(func() { mir.AppPut(dbiName, "plain", key, val) })
 					}
-					touchedKeys[dbiName+"/"+string(key)] = true
+					apply(func() { touchedKeys[dbiName+"/"+string(key)] = true })
 				}
 			}
 			return nil
 		})
+		if later != nil {
+			queuedTxn, queuedDirty = myTxn, err == nil && dirty
+			return err
+		}
 		if err == nil && dirty {
 			appFloor = appTxnID
 		}
@@ -585,6 +622,48 @@ func runLoopCase(c LoopCase, o *vcore.Obs) (*loopStats, error) {
 		return err
 	}
 	defer finishHeld() // (the environment must not be closed under an open transaction)
+	// a queued application commit (SAct.Queued): started by the goroutine that writes a log line of the instance
+	type queuedApp struct {
+		mu                        sync.Mutex
+		changes                   []SChange
+		k, seen                   int
+		started, finished, closed bool
+		done                      chan error
+		later                     []func()
+		err                       error
+		privBefore                string // the private DBIs when the loop was released (shadow mode)
+	}
+	var q *queuedApp
+	defer func() {
+		if q != nil {
+			SetLogGate("a", nil)
+			q.mu.Lock()
+			q.closed = true
+			started, finished := q.started, q.finished
+			q.mu.Unlock()
+			if started && !finished {
+				<-q.done // (the environment must not be closed under an open transaction)
+			}
+		}
+	}()
+	privDump := func() string {
+		dump, err := lm.DumpEnv(env.Env)
+		if err != nil {
+			return "?"
+		}
+		var sb strings.Builder
+		for _, d := range dump.DBIs {
+			if strings.HasPrefix(d.Name, syncer.SyncDBIPrefix) {
+				fmt.Fprintf(&sb, "%s:", d.Name)
+				for _, e := range d.Entries {
+					fmt.Fprintf(&sb, "%x=%x,", e.Key, e.Val)
+				}
+			}
+		}
+		return sb.String()
+	}
+	var afterModel []func() // model updates of a queued commit that fell AFTER the LS transaction of this yield
+	var afterTxn func()     // ... its transaction-id bookkeeping (after the header check of this yield)
 	for steps := 0; steps < 4000; steps++ {
 		if y.Done {
 			return st, fmt.Errorf("sync loop ended unexpectedly at %s: %v", y.Point, y.Err)
@@ -648,6 +727,10 @@ func runLoopCase(c LoopCase, o *vcore.Obs) (*loopStats, error) {
 			iterDirty = false
 			storesAtIter = countStores()
 		}
+		for _, f := range afterModel {
+			f() // the queued application commit landed after the LS transaction whose effects were just modelled
+		}
+		afterModel = nil
 		// C03: the application-visible content is what last-writer-wins prescribes
 		if err := checkVisible(where); err != nil {
 			if !c.OnlyTxnIDs {
@@ -657,6 +740,10 @@ func runLoopCase(c LoopCase, o *vcore.Obs) (*loopStats, error) {
 		}
 		if err := checkTxnIDs(where); err != nil {
 			return st, err
+		}
+		if afterTxn != nil {
+			afterTxn()
+			afterTxn = nil
 		}
 		// next act?
 		if len(plan) > 0 {
@@ -705,12 +792,48 @@ func runLoopCase(c LoopCase, o *vcore.Obs) (*loopStats, error) {
 						// a commit before the start-up capture pass (which only runs when the LMDB had data at
 						// start) is stamped like data changed while the syncer was down (documented: treated
 						// differently from steady state)
-						if a.Held {
+						isMain := false
+						for _, mp := range loopYieldPoints[:nMainPoints] {
+							isMain = isMain || mp == y.Point
+						}
+						if a.Queued && heldDone == nil && iterations > 0 && isMain && !ownPhase && y.Point != "send.in-read-txn" {
+							q = &queuedApp{changes: a.Changes, k: a.LogK, done: make(chan error, 1)}
+							if !c.Native {
+								q.privBefore = privDump()
+							}
+							qq := q
+							SetLogGate("a", func(string) {
+								qq.mu.Lock()
+								defer qq.mu.Unlock()
+								switch {
+								case qq.closed:
+								case !qq.started:
+									if qq.seen < qq.k {
+										qq.seen++
+										return
+									}
+									qq.started = true
+									go func() { qq.done <- commitInner(qq.changes, false, nil, &qq.later) }()
+									select {
+									case qq.err = <-qq.done:
+										qq.finished = true
+									case <-time.After(time.Millisecond):
+									}
+								case !qq.finished:
+									// the application waits for the write lock: give it the chance to get it here
+									select {
+									case qq.err = <-qq.done:
+										qq.finished = true
+									case <-time.After(3 * time.Millisecond):
+									}
+								}
+							})
+						} else if a.Held {
 							holding, release := make(chan struct{}), make(chan struct{})
 							done := make(chan error, 1)
 							changes := a.Changes
 							go func() {
-								done <- commitInner(changes, false, func() { close(holding); <-release })
+								done <- commitInner(changes, false, func() { close(holding); <-release }, nil)
 							}()
 							select {
 							case <-holding:
@@ -739,7 +862,7 @@ func runLoopCase(c LoopCase, o *vcore.Obs) (*loopStats, error) {
 							st.appBetween = true
 							lastAppBetween = true
 						}
-						if heldDone == nil {
+						if heldDone == nil && q == nil {
 							if err := checkVisible(where + " after the application's own commit"); err != nil {
 								return st, fmt.Errorf("harness/model disagreement: %v", err)
 							}
@@ -788,6 +911,91 @@ func runLoopCase(c LoopCase, o *vcore.Obs) (*loopStats, error) {
 		y, err = nd.Step()
 		if herr := finishHeld(); herr != nil {
 			return st, fmt.Errorf("harness: held app commit: %v", herr)
+		}
+		if q != nil {
+			SetLogGate("a", nil)
+			q.mu.Lock() // (waits for a gate call that is still in progress)
+			q.closed = true
+			started, finished := q.started, q.finished
+			q.mu.Unlock()
+			qq := q
+			q = nil
+			if !started {
+				// the log line never came before the next yield point: an ordinary commit at that point
+				plan = append([]SAct{{Kind: "app", Changes: qq.changes}}, plan...)
+				st.queuedNoLine++
+			} else {
+				if !finished {
+					select {
+					case qq.err = <-qq.done:
+					case <-time.After(20 * time.Second):
+						return st, fmt.Errorf("harness: the queued application transaction did not get the write lock within 20 s (loop at %s)", y.Point)
+					}
+				}
+				if qq.err != nil {
+					return st, fmt.Errorf("harness: queued app commit: %v", qq.err)
+				}
+				st.queued++
+				if !finished {
+					st.queuedWaited++
+				}
+				qTxn, qDirty := queuedTxn, queuedDirty
+				txnBook := func() {
+					appTxnID = qTxn
+					if qDirty {
+						appFloor = qTxn
+						appRecorded = true
+					}
+				}
+				after := false
+				if err == nil && !y.Done {
+					switch {
+					case y.Point == "load.after-txn" || (y.Point == "send.after-txn" && !c.Native):
+						// Lightning Stream's write transaction had the id y.N
+						switch {
+						case qTxn > y.N:
+							after = true
+						case qTxn == y.N && qDirty:
+							// same id as LS's transaction: either that transaction wrote nothing and the application's
+							// commit followed it (the listed known finding: excluded, counted), or - if LS did write -
+							// something is off and the oracles decide with the commit placed after it
+							lsWrote := false
+							if !c.Native {
+								lsWrote = privDump() != qq.privBefore
+							} else if dump, derr := lm.DumpEnv(env.Env); derr == nil {
+								mine := map[string]bool{}
+								for _, ch := range qq.changes {
+									mine[fleetDBIs[ch.DBI%len(fleetDBIs)]+"/"+string(fleetKeys[ch.Key%len(fleetKeys)])] = true
+								}
+								for _, d := range dump.DBIs {
+									for _, e := range d.Entries {
+										if hh, herr := model.ReadHeader(e.Val); herr == nil && hh.TxnID == y.N && !mine[d.Name+"/"+string(e.Key)] {
+											lsWrote = true
+										}
+									}
+								}
+							}
+							if !lsWrote && !c.AllowF9 {
+								st.excludedF9++
+								st.aborted = true
+								return st, nil
+							}
+							after = true
+						}
+					case y.Point == "send.after-txn" && c.Native:
+						after = qTxn > y.N // (the upload's read transaction saw everything up to y.N)
+					}
+				}
+				if after {
+					afterModel, afterTxn = qq.later, txnBook
+					st.queuedAfterLS++
+				} else {
+					for _, f := range qq.later {
+						f()
+					}
+					txnBook()
+				}
+			}
 		}
 		if err != nil {
 			return st, err
@@ -941,6 +1149,11 @@ func classifyLoop(c LoopCase, st *loopStats, o *vcore.Obs) {
 	o.ClassIf(st.lsEmptyApp > 0, "app-commit-after-empty-ls-txn")
 	o.ClassIf(st.fallbacks > 0, "trigger-point-did-not-occur-fired-at-next-yield")
 	o.ClassIf(st.held > 0, "app-txn-held-the-write-lock-while-the-loop-ran-on")
+	o.ClassIf(st.queued > 0, "app-txn-started-at-a-log-line-of-the-running-loop")
+	o.ClassIf(st.queuedWaited > 0, "app-txn-queued-for-the-write-lock-behind-an-ls-transaction")
+	o.ClassIf(st.queuedAfterLS > 0, "app-commit-right-after-an-ls-transaction-before-the-next-yield")
+	o.ClassIf(st.queuedNoLine > 0, "queued-commit-fell-back-to-the-next-yield")
+	o.ClassIf(st.aborted, "case-ended-at-the-known-finding")
 	o.ClassIf(st.betweenHeld > 0, "peer-version-stamped-between-lock-wait-and-commit-of-the-held-txn")
 	o.ClassIf(st.txnIDChecked > 0, "header-txn-id-of-ls-written-entries-checked")
 }
@@ -1026,6 +1239,10 @@ func genLoopCase(t *rapid.T) LoopCase {
 				a.Changes = append(a.Changes, genSChange(t, &c, nkeys))
 			}
 			a.Held = rapid.IntRange(0, 2).Draw(t, "held") == 0
+			if !a.Held && rapid.IntRange(0, 2).Draw(t, "queued") == 0 {
+				a.Queued = true
+				a.LogK = rapid.IntRange(0, 12).Draw(t, "log_k")
+			}
 		case "deliver":
 			a.Peer = genSPeer(t, &c, nkeys)
 			a.BetweenHeld = !c.Native && rapid.IntRange(0, 2).Draw(t, "between_held") == 0
@@ -1065,6 +1282,10 @@ type enumLoop struct {
 	OwnAtStart  bool `json:"own_at_start,omitempty"`
 	// Held: the application's transaction is open (holds the write lock) when the loop leaves the point
 	Held bool `json:"held,omitempty"`
+	// Queued: the application's transaction is started by whoever writes the LogK-th log line after the loop left
+	// the point (and waits for the write lock if Lightning Stream holds it then)
+	Queued bool `json:"queued,omitempty"`
+	LogK   int  `json:"log_k,omitempty"`
 }
 
 func (e enumLoop) toCase() LoopCase {
@@ -1118,7 +1339,7 @@ func (e enumLoop) toCase() LoopCase {
 		lateAct.BetweenHeld = true
 	}
 	c.Plan = append(c.Plan,
-		SAct{Kind: "app", At: e.Point, Changes: ch, Held: e.Held},
+		SAct{Kind: "app", At: e.Point, Changes: ch, Held: e.Held, Queued: e.Queued, LogK: e.LogK},
 		lateAct)
 	return c
 }
@@ -1171,6 +1392,15 @@ func TestC03Enum(t *testing.T) {
 						// the same commit on a receive-only instance (captures, merges, never uploads)
 						if !yield(enumLoop{Native: native, Point: p, Kind: k, PeerNoop: false, LocalFirst: true, ReceiveOnly: true}) {
 							return
+						}
+						// the application's transaction starts while the loop runs, at the n-th log line after the point: where
+						// Lightning Stream holds the write lock at that line, it queues up and commits right behind LS's transaction
+						if k == "overwrite" || k == "multi" {
+							for _, lk := range []int{0, 1, 2, 3, 5, 8} {
+								if !yield(enumLoop{Native: native, Point: p, Kind: k, PeerNoop: false, LocalFirst: true, Queued: true, LogK: lk}) {
+									return
+								}
+							}
 						}
 					}
 				}
